@@ -115,6 +115,7 @@ static std::vector<std::string> sweep(const std::string& which, const std::vecto
                 fprintf(o, "%zu\t%s\n", n, st.c_str());
                 fflush(o);
             }
+            VERIF_COV_DUMP();
             _exit(0);
         }
         ::close(fd[1]);
